@@ -1,0 +1,342 @@
+//go:build verif
+
+package gojq
+
+// Verification hooks (build tag "verif"). Nothing in this file changes the
+// behaviour of the package unless a harness sets one of the exported
+// variables. Without the tag, verif_nohooks.go provides inlinable no-ops.
+
+import (
+	"encoding/json"
+	"fmt"
+	"math"
+	"math/big"
+	"sort"
+)
+
+// ---------------------------------------------------------------------------
+// H2: optimisation switches. Bit k set = rewrite k disabled.
+
+const (
+	verifOptConstObject = iota
+	verifOptConstArray
+	verifOptUnaryLiteral
+	verifOptConstIndex
+	verifOptConstSetpath
+	verifOptInlineIdentity
+	verifOptInlineOneInstr
+	verifOptIfConstBranches
+	verifOptBindExpbegin
+	verifOptIfExpbegin
+	verifOptIndexExpbegin
+	verifOptTailRec
+	verifOptCodeOps
+	verifOptCount
+)
+
+// VerifOptCount is the number of switches.
+const VerifOptCount = verifOptCount
+
+// VerifOptNames names the switches in bit order.
+var VerifOptNames = []string{
+	"const-object", "const-array", "unary-literal", "const-index",
+	"const-setpath", "inline-identity", "inline-one-instr",
+	"if-const-branches", "bind-expbegin", "if-expbegin", "index-expbegin",
+	"tailrec", "codeops",
+}
+
+// VerifOptMask is consulted by the compiler at every rewrite site.
+var VerifOptMask uint
+
+func verifOptOff(k int) bool { return VerifOptMask&(1<<uint(k)) != 0 }
+
+// verifNoInline reports whether the argument inlining for a lambda of n
+// instructions (2: identity, 3: one instruction) is switched off.
+func verifNoInline(n int) bool {
+	return n == 2 && verifOptOff(verifOptInlineIdentity) ||
+		n == 3 && verifOptOff(verifOptInlineOneInstr)
+}
+
+// verifIndexDeopt returns an index expression equivalent to x that the
+// compiler does not recognise as a constant key: .name / ."str" / .[lit]
+// become .[(lit)].
+func verifIndexDeopt(x *Index) *Index {
+	if !verifOptOff(verifOptConstIndex) || x.toIndexKey() == nil {
+		return x
+	}
+	paren := func(q *Query) *Query {
+		if q == nil {
+			return nil
+		}
+		return &Query{Term: &Term{Type: TermTypeQuery, Query: q}}
+	}
+	str := func(s string) *Query {
+		return &Query{Term: &Term{Type: TermTypeString, Str: &String{Str: s}}}
+	}
+	switch {
+	case x.Name != "":
+		return &Index{Start: paren(str(x.Name))}
+	case x.Str != nil:
+		return &Index{Start: paren(str(x.Str.Str))}
+	default:
+		return &Index{Start: paren(x.Start), End: paren(x.End), IsSlice: x.IsSlice}
+	}
+}
+
+// verifCompileUnarySlow compiles a unary expression without folding.
+func (c *compiler) verifCompileUnarySlow(e *Unary) error {
+	if err := c.compileTerm(e.Term); err != nil {
+		return err
+	}
+	switch e.Op {
+	case OpAdd:
+		return c.compileCall("_plus", nil)
+	case OpSub:
+		return c.compileCall("_negate", nil)
+	default:
+		return fmt.Errorf("unexpected operator in Unary: %s", e.Op)
+	}
+}
+
+// ---------------------------------------------------------------------------
+// value encoding shared by the dump functions (tagged JSON, see DESIGN 2.3)
+
+// VerifEncVal encodes a gojq value as the tagged JSON the specification reads.
+func VerifEncVal(v any) any {
+	switch v := v.(type) {
+	case nil:
+		return map[string]any{"t": "null"}
+	case bool:
+		return map[string]any{"t": "bool", "b": v}
+	case int:
+		if -1<<30 < v && v < 1<<30 {
+			return map[string]any{"t": "num", "n": v}
+		}
+		return map[string]any{"t": "big", "s": fmt.Sprint(v), "rep": "int"}
+	case float64:
+		if v == math.Trunc(v) && math.Abs(v) < 1<<30 {
+			return map[string]any{"t": "num", "n": int(v), "rep": "float"}
+		}
+		return map[string]any{"t": "float", "f": fmt.Sprint(v)}
+	case *big.Int:
+		return map[string]any{"t": "big", "s": v.String(), "rep": "big"}
+	case json.Number:
+		return map[string]any{"t": "jnum", "s": v.String()}
+	case string:
+		cs := []any{}
+		for _, r := range v {
+			cs = append(cs, int(r))
+		}
+		return map[string]any{"t": "str", "s": cs}
+	case []any:
+		xs := []any{}
+		for _, x := range v {
+			xs = append(xs, VerifEncVal(x))
+		}
+		return map[string]any{"t": "arr", "a": xs}
+	case map[string]any:
+		ks := make([]string, 0, len(v))
+		for k := range v {
+			ks = append(ks, k)
+		}
+		sort.Strings(ks)
+		xs := []any{}
+		for _, k := range ks {
+			xs = append(xs, []any{VerifEncVal(k).(map[string]any)["s"], VerifEncVal(v[k])})
+		}
+		return map[string]any{"t": "obj", "o": xs}
+	default:
+		return map[string]any{"t": "other", "x": fmt.Sprintf("%T", v)}
+	}
+}
+
+// ---------------------------------------------------------------------------
+// H1: bytecode dump
+
+// VerifInstr is one dumped instruction.
+type VerifInstr struct {
+	Op string `json:"op"`
+	V  any    `json:"v,omitempty"`
+}
+
+// VerifDump returns the bytecode of a compiled query.
+func VerifDump(c *Code) []VerifInstr {
+	out := make([]VerifInstr, len(c.codes))
+	for i, cd := range c.codes {
+		in := VerifInstr{Op: cd.op.String()}
+		switch v := cd.v.(type) {
+		case nil:
+			if cd.op == oppush || cd.op == opconst {
+				in.V = map[string]any{"val": VerifEncVal(nil)}
+			}
+		case int:
+			switch cd.op {
+			case oppush, opconst, opindex, opindexarray:
+				in.V = map[string]any{"val": VerifEncVal(v)}
+			default:
+				in.V = map[string]any{"n": v}
+			}
+		case [2]int:
+			in.V = map[string]any{"id": v[0], "ix": v[1]}
+		case [3]int:
+			in.V = map[string]any{"id": v[0], "cnt": v[1], "argc": v[2]}
+		case [3]any:
+			in.V = map[string]any{"native": v[2].(string), "argc": v[1].(int)}
+		default:
+			in.V = map[string]any{"val": VerifEncVal(v)}
+		}
+		out[i] = in
+	}
+	return out
+}
+
+// VerifConstants returns the raw constant operands embedded in the code
+// (the very objects, so that a harness can snapshot them before and after).
+func VerifConstants(c *Code) []any {
+	var xs []any
+	for _, cd := range c.codes {
+		switch cd.v.(type) {
+		case nil, int, [2]int, [3]int, [3]any:
+			if cd.op != oppush && cd.op != opconst && cd.op != opindex && cd.op != opindexarray {
+				continue
+			}
+		}
+		xs = append(xs, cd.v)
+	}
+	return xs
+}
+
+// ---------------------------------------------------------------------------
+// H3: VM step tracer and footprint
+
+// VerifStep is the abstract projection of the VM state before an instruction.
+type VerifStep struct {
+	Pc  int  `json:"pc"`
+	Bt  bool `json:"bt"`
+	Nf  int  `json:"nf"`  // number of forks
+	Sd  int  `json:"sd"`  // logical depth of the data stack
+	Scd int  `json:"scd"` // logical depth of the scope stack
+	Pd  int  `json:"pd"`  // logical depth of the path stack
+	Off int  `json:"off"` // register offset
+	Exp int  `json:"exp"` // expdepth
+}
+
+// VerifTracer, when set, is called before every instruction.
+var VerifTracer func(VerifStep)
+
+func (env *env) verifStep(pc int, backtrack bool) {
+	if VerifTracer == nil {
+		return
+	}
+	VerifTracer(VerifStep{pc, backtrack, len(env.forks), verifDepth(env.stack),
+		verifScopeDepth(env.scopes), verifDepth(env.paths), env.offset, env.expdepth})
+}
+
+func verifDepth(s *stack) (n int) {
+	for i := s.index; i >= 0; i = s.data[i].next {
+		n++
+	}
+	return
+}
+
+func verifScopeDepth(s *scopeStack) (n int) {
+	for i := s.index; i >= 0; i = s.data[i].next {
+		n++
+	}
+	return
+}
+
+// VerifFP is the interpreter state retained by an iterator.
+type VerifFP struct {
+	Forks     int `json:"forks"`
+	StackLog  int `json:"stack_log"`
+	StackPhys int `json:"stack_phys"`
+	ScopeLog  int `json:"scope_log"`
+	ScopePhys int `json:"scope_phys"`
+	PathLog   int `json:"path_log"`
+	PathPhys  int `json:"path_phys"`
+	Values    int `json:"values"`
+	Offset    int `json:"offset"`
+	StackIdx  int `json:"stack_idx"`
+	StackLim  int `json:"stack_lim"`
+	ScopeIdx  int `json:"scope_idx"`
+	ScopeLim  int `json:"scope_lim"`
+}
+
+// VerifFootprint reports the retained interpreter state of an iterator
+// returned by Run (ok is false for the one-shot error iterators).
+func VerifFootprint(it Iter) (fp VerifFP, ok bool) {
+	env, ok := it.(*env)
+	if !ok {
+		return
+	}
+	return VerifFP{
+		Forks: len(env.forks), StackLog: verifDepth(env.stack), StackPhys: len(env.stack.data),
+		ScopeLog: verifScopeDepth(env.scopes), ScopePhys: len(env.scopes.data),
+		PathLog: verifDepth(env.paths), PathPhys: len(env.paths.data),
+		Values: len(env.values), Offset: env.offset,
+		StackIdx: env.stack.index, StackLim: env.stack.limit,
+		ScopeIdx: env.scopes.index, ScopeLim: env.scopes.limit,
+	}, true
+}
+
+// ---------------------------------------------------------------------------
+// H4: wrappers exposing the unexported persistent stacks
+
+// VerifStack wraps the data stack type.
+type VerifStack struct{ s *stack }
+
+// VerifNewStack returns an empty stack.
+func VerifNewStack() *VerifStack             { return &VerifStack{newStack()} }
+func (s *VerifStack) Push(v any)             { s.s.push(v) }
+func (s *VerifStack) Pop() any               { return s.s.pop() }
+func (s *VerifStack) Top() any               { return s.s.top() }
+func (s *VerifStack) Empty() bool            { return s.s.empty() }
+func (s *VerifStack) Save() (int, int)       { return s.s.save() }
+func (s *VerifStack) Restore(i, l int)       { s.s.restore(i, l) }
+func (s *VerifStack) State() (int, int, int) { return s.s.index, s.s.limit, len(s.s.data) }
+
+// Contents lists the logical contents, top first.
+func (s *VerifStack) Contents() []any {
+	xs := []any{}
+	for i := s.s.index; i >= 0; i = s.s.data[i].next {
+		xs = append(xs, s.s.data[i].value)
+	}
+	return xs
+}
+
+// VerifScopeStack wraps the scope stack type (values are scope ids).
+type VerifScopeStack struct{ s *scopeStack }
+
+// VerifNewScopeStack returns an empty scope stack.
+func VerifNewScopeStack() *VerifScopeStack        { return &VerifScopeStack{newScopeStack()} }
+func (s *VerifScopeStack) Push(id int)            { s.s.push(scope{id: id}) }
+func (s *VerifScopeStack) Pop() int               { return s.s.pop().id }
+func (s *VerifScopeStack) Empty() bool            { return s.s.empty() }
+func (s *VerifScopeStack) Save() (int, int)       { return s.s.save() }
+func (s *VerifScopeStack) Restore(i, l int)       { s.s.restore(i, l) }
+func (s *VerifScopeStack) State() (int, int, int) { return s.s.index, s.s.limit, len(s.s.data) }
+
+// Contents lists the logical contents, top first.
+func (s *VerifScopeStack) Contents() []any {
+	xs := []any{}
+	for i := s.s.index; i >= 0; i = s.s.data[i].next {
+		xs = append(xs, s.s.data[i].value.id)
+	}
+	return xs
+}
+
+// ---------------------------------------------------------------------------
+// H5: builtin tables
+
+// VerifBuiltinFuncDefs returns the precompiled jq-defined builtins.
+func VerifBuiltinFuncDefs() map[string][]*FuncDef { return builtinFuncDefs }
+
+// VerifInternalFuncs returns name -> arity bit mask of the native builtins.
+func VerifInternalFuncs() map[string]int {
+	m := make(map[string]int, len(internalFuncs))
+	for name, fn := range internalFuncs {
+		m[name] = fn.argcount
+	}
+	return m
+}
